@@ -145,6 +145,7 @@ type vcgen struct {
 
 	localCells    []string // terms of local variable cells that never escape to code outside this function
 	inClosureCall bool
+	havockedEvents map[string]bool // events forgotten while the current call's contract is applied
 	stableCells   map[string]bool
 	skipArgClosures bool
 	localFields   map[string][]string // heap array -> struct variable cells whose fields no callee can write
